@@ -647,9 +647,11 @@ Definition corr01 (c : c01_case) : bool :=
       any transition
    7  the states reported in the event stream do not follow the documented graph
    8  the reply reports a state different from the state the environment is in
-   9  concurrent callers: the environment left ERROR other than by teardown, or a request was
-      answered "Aborted" (ERROR forced) and the environment ended in a live state      [C01-b]
-   10 concurrent requests never returned (deadlock)                                     [C01-c] *)
+   9  concurrent callers, one ControlEnvironment answered "Aborted" (it forced ERROR without the
+      transition mutex): the environment left ERROR other than by teardown, or ended live  [C01-b]
+   10 concurrent requests never returned (deadlock) in an episode with a ControlEnvironment
+      transition request and a failing hook on the GO_ERROR fallback path                [C01-c]
+   11 concurrent requests never returned, any other episode *)
 
 Definition edge_code (conc listed : bool) (e : estate * estate) : N :=
   let '(a, b) := e in
@@ -733,16 +735,35 @@ Fixpoint brackets_ok (depth : N) (l : list litem) : bool :=
   | LI _ :: r => (depth =? 1) && brackets_ok depth r
   end.
 
+(* some ControlEnvironment of the episode was answered Aborted: it has forced ERROR (server.go) *)
+Definition aborted (ths : list (req * N * option estate)) : bool :=
+  existsb (fun t => match fst (fst t) with QControl _ => snd (fst t) =? 3 | _ => false end) ths.
+
 Definition mon_conc (st0 : estate) (ths : list (req * N * option estate)) (log : list litem)
            (final : estate) (listed : bool) : N :=
   if negb (brackets_ok 0 log) then 6 else
-  let g := edges_code true listed (pairs_from st0 (log_states log ++ [final])) in
+  (* leaving ERROR is class 9 only when a forced ERROR was involved, class 1 otherwise *)
+  let ab := aborted ths in
+  let g := edges_code ab listed (pairs_from st0 (log_states log ++ [final])) in
   if negb (g =? 0) then g else
-  let g2 := reported_code (edges_code true listed (pairs_from st0 (log_reported log))) in
+  let g2 := reported_code (edges_code ab listed (pairs_from st0 (log_reported log))) in
   if negb (g2 =? 0) then g2 else
   (* a control request answered Aborted has forced ERROR: afterwards only a teardown may move *)
-  if existsb (fun t => match fst (fst t) with QControl _ => snd (fst t) =? 3 | _ => false end) ths && live final
-  then 9 else 0.
+  if ab && live final then 9 else 0.
+
+(* a hook fault on the path of the GO_ERROR fallback: the only way a ControlEnvironment reaches its
+   unlocked Sm.SetState("ERROR") while somebody else's event can still be running callbacks *)
+Definition goerror_path_fault (o : oracle) : bool :=
+  existsb (fun m => match m with
+                    | MBefore eGO_ERROR | MAfter eGO_ERROR | MEnter sERROR => true
+                    | MLeave s => live s
+                    | _ => false
+                    end) (o_hooks o).
+Definition is_transition_request (q : req) : bool :=
+  match q with
+  | QControl ot => match doc_op_event ot with Some _ => true | None => false end
+  | _ => false
+  end.
 
 Definition mon01 (c : c01_case) : N :=
   match c with
@@ -756,7 +777,7 @@ Definition mon01 (c : c01_case) : N :=
     | _ => 5
     end
   | CConc st0 o ths macro micro log final listed => mon_conc st0 ths log final listed
-  | CHung _ _ => 10
+  | CHung o reqs => if existsb is_transition_request reqs && goerror_path_fault o then 10 else 11
   end.
 
 (* ---------- branch tags (measured input distribution) ---------- *)
